@@ -267,7 +267,12 @@ def main(argv=None):
         e = known[(clause, finding)]
         print(f"KNOWN-FINDING: property={prop_id} clause={clause} class={finding} cases={c}: {e['what']}")
     if unknown or n_unknown:
-        for v in unknown[:20]:
+        shown = Counter()
+        for v in unknown:
+            # a few replay files per (clause, class), so that a flood in one clause cannot hide another
+            if shown[(v["clause"], v["finding"])] >= 5 or sum(shown.values()) >= 40:
+                continue
+            shown[(v["clause"], v["finding"])] += 1
             path = write_replay(prop_id, v)
             print(f"  clause={v['clause']} class={v['finding']} input={json.dumps(v['input'], default=str)[:300]}")
             print(f"  detail: {str(v['detail'])[:400]}")
